@@ -87,7 +87,13 @@ func (c *c18Sess) eventFor(id string) *mocrelay.Event {
 		return e
 	}
 	// the same event ids are used by every session: a leak between connections shows
-	e := &mocrelay.Event{Pubkey: gen.Keys[0].Pub, Kind: 1, CreatedAt: 1, Content: id}
+	// the event class is irrelevant to de-duplication: regular, replaceable, ephemeral, addressable
+	kinds := []int64{1, 1, 0, 20001, 29999, 30000, 7, 10002}
+	k := kinds[0]
+	if len(id) > 0 {
+		k = kinds[int(id[len(id)-1])%len(kinds)]
+	}
+	e := &mocrelay.Event{Pubkey: gen.Keys[0].Pub, Kind: k, CreatedAt: 1, Content: id}
 	gen.Seal(e)
 	c.events[id] = e
 	return e
